@@ -798,8 +798,8 @@ func evalMemberMethodExpr(vm *r.VM, expr *syntax.MemberMethodExpr) (r.Element, e
 			return nil, err
 		}
 
-		// bind yield result
-		if err := vm.DeclareElement(vtag, vlast); err != nil {
+		// bind yield result (a 得到 name is a constant, as for a direct function call)
+		if err := vm.DeclareConstElement(vtag, vlast); err != nil {
 			return nil, err
 		}
 	}
